@@ -29,11 +29,15 @@ def eval_batch(terms, *, read_path=True, circuit_path=True, max_viol=20):
                 out["violations"].append(("build", t, None, type(ex).__name__ + ": " + str(ex)[:80], "accepted by the reference"))
                 continue
             _, w, sg = R.ev(t, {i: 0 for i in idx})
-            esh = e.shape()
+            try:
+                esh = e.shape()
+                o = Signal(esh, name=f"o{len(built)}")
+                m.d.comb += o.eq(e)
+            except Exception as ex:
+                out["violations"].append(("shape", t, None, "raises " + type(ex).__name__ + ": " + str(ex)[:80], (w, sg)))
+                continue
             if R.shape_documented(t) and (esh.width, esh.signed) != (w, sg):
                 out["violations"].append(("shape", t, None, (esh.width, esh.signed), (w, sg)))
-            o = Signal(esh, name=f"o{len(built)}")
-            m.d.comb += o.eq(e)
             built.append((t, e, o))
     out["terms"] = len(built)
     if not built:
